@@ -213,15 +213,15 @@ func WriteReal(dir string, seed int64, nv int) ([]string, error) {
 	}{{"ascii", ply.ASCII}, {"le", ply.BinaryLittleEndian}, {"be", ply.BinaryBigEndian}} {
 		for _, m := range []pm{{"tri", tri}, {"triuv", triUV}, {"cloud", cloud}, {"splats", splats}} {
 			fm, m := fm, m
-			if err := save(fmt.Sprintf("w-%s-%s.ply", m.name, fm.tag), func(f *os.File) error { return ply.Write(f, m.m, fm.f) }); err != nil {
+			if err := save(fmt.Sprintf("w%d-%s-%s.ply", nv, m.name, fm.tag), func(f *os.File) error { return ply.Write(f, m.m, fm.f) }); err != nil {
 				return nil, err
 			}
 		}
 	}
-	if err := save("w-tri.stl", func(f *os.File) error { return stl.WriteMesh(f, tri) }); err != nil {
+	if err := save(fmt.Sprintf("w%d-tri.stl", nv), func(f *os.File) error { return stl.WriteMesh(f, tri) }); err != nil {
 		return nil, err
 	}
-	if err := save("w-splats.splat", func(f *os.File) error { return splat.Write(f, splats) }); err != nil {
+	if err := save(fmt.Sprintf("w%d-splats.splat", nv), func(f *os.File) error { return splat.Write(f, splats) }); err != nil {
 		return nil, err
 	}
 	return paths, nil
